@@ -48,6 +48,30 @@ MUTANTS = [
     ("C04", R + "_operations/_slice.py", "    def is_count_dependent(self) -> bool:\n        # Docstring inherited.\n        return True", "    def is_count_dependent(self) -> bool:\n        # Docstring inherited.\n        return False", "Slice.is_count_dependent flipped"),
     ("C04", R + "_operations/_deduplication.py", "        if not current.columns >= current.target.columns:", "        if False:", "Deduplication.commute drops the column-change guard"),
     ("C04", R + "_unary_operation.py", "        return UnaryCommutator(\n            first=None,\n            second=current.operation,\n            done=False,\n            messages=(f\"{self} does not commute with anything\",),\n        )", "        return UnaryCommutator(\n            first=None,\n            second=self,\n            done=False,\n            messages=(f\"{self} does not commute with anything\",),\n        )", "base commute hands back the wrong operation (only custom ops use it) -- must NOT be flagged"),
+    ("C05", R + "_operations/_selection.py", "return Selection(predicate=other_predicate.logical_and(self.predicate))", "return Selection(predicate=self.predicate)", "Selection.simplify keeps only the new predicate"),
+    ("C05", R + "_operations/_projection.py", "            case Calculation(tag=tag) if tag not in self.columns:\n                return self", "            case Calculation(tag=tag):\n                return self", "Projection.simplify drops a calculation it still needs"),
+    ("C05", R + "_operations/_sort.py", "        new_terms = list(next.terms)\n        for term in self.terms:", "        new_terms = list(self.terms)\n        for term in next.terms:", "Sort.then puts the earlier sort's terms first"),
+    ("C05", R + "_unary_operation.py", "                    if simplified is target.operation:\n                        return target\n                    else:\n                        return simplified._finish_apply(target.target)", "                    if simplified is target.operation:\n                        return target\n                    else:\n                        return simplified._finish_apply(target)", "_finish_apply applies the merged operation on top of the old node"),
+    ("C03", R + "iteration/_engine.py", "        if tree.is_locked:\n            return tree, False, (f\"{tree} is locked\",)\n", "", "backtrack_unary ignores is_locked"),
+    ("C03", R + "iteration/_engine.py", "                        done and commutator.done,", "                        done,", "backtrack_unary reports done when the commutation was only partial"),
+    ("C03", R + "iteration/_engine.py", "                        result = commutator.second._finish_apply(upstream)", "                        result = commutator.second._finish_apply(target)", "backtrack_unary rebuilds on the old target"),
+    ("C03", R + "iteration/_engine.py", "                    if upstream is not target or (done and commutator.second is not tree.operation):", "                    if upstream is not target:", "F18 returns (node with replaced operation kept)"),
+    ("C03", R + "iteration/_engine.py", "                    if upstream is target:\n                        # Nothing was inserted: keep this transfer (and any\n                        # payload already attached to it) as it is.\n                        return (tree, done, messages)\n", "", "F20 returns (payload-less transfer rebuilt)"),
+    ("C03", R + "_unary_operation.py", "        operation, preferred_engine = self._begin_apply(target, preferred_engine)\n        done = False", "        operation, preferred_engine = self, (preferred_engine if preferred_engine is not None else target.engine)\n        done = False", "apply skips _begin_apply validation"),
+    ("C14", R + "_unary_operation.py", "        if not self.is_supported_by(target.engine):\n            raise EngineError(f\"Operation {self} is not supported by engine {target.engine}.\")\n", "", "_finish_apply no longer checks engine support"),
+    ("C14", R + "_engine.py", "        if target.engine == self:\n            if payload is not None:", "        if False:\n            if payload is not None:", "Engine.transfer builds a self-transfer"),
+    ("C14", R + "_operations/_join.py", "        if lhs.engine != rhs.engine:\n            raise EngineError(f\"Mismatched join engines: {lhs.engine} != {rhs.engine}.\")\n", "", "Join._finish_apply no longer checks engines"),
+    ("C14", R + "_operations/_chain.py", "        if lhs.engine != rhs.engine:\n            raise EngineError(f\"Mismatched chain engines: {lhs.engine} != {rhs.engine}.\")\n", "", "Chain._begin_apply no longer checks engines"),
+    ("C15", R + "_transfer.py", "        if target.is_locked:\n            return None\n", "", "Transfer.simplify looks through locked relations"),
+    ("C15", R + "_materialization.py", "                if target.engine == new_target.engine:\n                    return cls.simplify(new_target)", "                return cls.simplify(new_target)", "Materialization.simplify looks through transfers (still only claims leaf/materialization/marker) -- must NOT be flagged"),
+    ("C15", R + "_engine.py", "        if Materialization.simplify(target):\n            return target\n", "", "Engine.materialize re-materializes leaves"),
+    ("C20", R + "_operations/_calculation.py", "        if self.tag in target.columns:\n            raise ColumnError(f\"Calculated column {self.tag} is already present in {target}.\")\n", "", "Calculation._begin_apply accepts an existing tag"),
+    ("C20", R + "_operations/_projection.py", "        if not self.columns <= target.columns:", "        if not self.columns <= target.columns and False:", "Projection._begin_apply accepts missing columns"),
+    ("C20", R + "_relation.py", "        if key.step not in (1, None):", "        if key.step not in (1, 2, None):", "__getitem__ accepts step 2"),
+    ("C20", R + "_operations/_slice.py", "        if self.stop is not None and self.stop < self.start:", "        if self.stop is not None and self.stop < self.start - 1:", "Slice accepts a reversed window"),
+    ("C20", R + "_operations/_chain.py", "        if lhs.columns != rhs.columns:", "        if not lhs.columns <= rhs.columns:", "Chain accepts operands with different columns"),
+    ("C06", R + "_operations/_join.py", "        if self.predicate.as_trivial() is True:\n            # Joining to the join identity is only a no-op when there is no\n            # join predicate left to apply.\n            if lhs.is_join_identity:", "        if True:\n            if lhs.is_join_identity:", "join-identity elision drops the predicate again (_begin_apply)"),
+    ("C06", R + "_operations/_join.py", "        if self.predicate.as_trivial() is True:\n            if lhs.is_join_identity:\n                return rhs", "        if True:\n            if lhs.is_join_identity:\n                return rhs", "join-identity elision drops the predicate again (_finish_apply)"),
 ]
 
 
